@@ -271,6 +271,20 @@ def check_emission(col: Collector, repo: Repo):
     col.add("C12.R5", f.short, "result-typed-by-table", ok_type,
             "the value must be typed terminal(<function>.cpp_return_type) unconditionally: a type chosen from the arguments "
             "(e.g. int for integer arguments) stores pow(n, -1) as 0", f.loc)
+    # the value is valid at the scope the arguments left the cursor in (they may have opened loops / ifs)
+    ok_scope = False
+    for c in ast.walk(n):
+        if isinstance(c, ast.Call) and call_name(c) == "cpp_value":
+            sc = arg(c, 1, "scope")
+            ok_scope = sc is not None and src(sc) == "self._gc.current_scope()"
+    col.add("C12.R5", f.short, "result-valid-at-the-current-scope", ok_scope,
+            "the result must carry self._gc.current_scope() (after all arguments are translated); a scope computed from only some of the arguments "
+            "lets the value be used outside the loop a later argument (fma's third) opened", f.loc)
+    restrict = [src(x)[:40] for x in ast.walk(n) if isinstance(x, (ast.Raise, ast.Assert))] + \
+        [src(x)[:40] for x in ast.walk(n) if isinstance(x, ast.Call) and call_name(x) in ("most_accurate_type", "check_accumulator_type")]
+    col.add("C12.R5", f.short, "no-argument-type-restriction", not restrict,
+            f"the handler refuses some argument types ({restrict}): documented functions take strings (nan(\"\")) and values of any declared numeric "
+            "C++ type; the C++ compiler, not the translator, judges the arguments", f.loc)
     # result is registered on the node
     ok_set = any(isinstance(c, ast.Call) and call_name(c) == "set_rep" for c in ast.walk(n))
     col.add("C12.R5", f.short, "publishes-rep", ok_set, "handler must publish the value with set_rep", f.loc)
